@@ -91,6 +91,7 @@ impl Device {
         .await?;
         let key: AccessKey = password.clone().into();
         account.sign_in(&key).await?;
+        account.initialize_search_index().await?;
         let d = account
             .default_folder()
             .await
@@ -280,6 +281,7 @@ impl Device {
                     .await?;
                     let key: AccessKey = self.password.clone().into();
                     fresh.sign_in(&key).await?;
+                    fresh.initialize_search_index().await?;
                     self.account = fresh;
                     self.target = target;
                 }
@@ -626,6 +628,304 @@ pub async fn c02_for_folder(
     Ok(())
 }
 
+/// C20: the search index holds exactly one document per live secret with
+/// its current label/tags/kind/favourite, its counters equal a recount and
+/// it is identical to an index built from scratch.
+pub async fn c20_check(
+    account: &LocalAccount,
+    label: &str,
+    problems: &mut Vec<String>,
+) -> Result<()> {
+    use sos_search::SearchIndex;
+    use std::collections::BTreeMap as Map;
+    let folders = account.list_folders().await?;
+    let archive = account.archive_folder().await.map(|s| *s.id());
+    // what the folders contain, through the public API
+    let mut expected: Map<(VaultId, SecretId), String> = Map::new();
+    for f in &folders {
+        for id in account.list_secret_ids(f.id()).await? {
+            let (row, _) = account.read_secret(&id, Some(f.id())).await?;
+            expected.insert((*f.id(), id), doc_digest(row.meta()));
+        }
+    }
+    let index = account.search_index().await?;
+    let index = index.read().await;
+    let mut actual: Map<(VaultId, SecretId), String> = Map::new();
+    for doc in index.values() {
+        let key = (*doc.folder_id(), *doc.id());
+        if actual.insert(key, doc_digest(doc.meta())).is_some() {
+            problems.push(format!("{label}: search index has two documents for secret {}", doc.id()));
+        }
+    }
+    if actual != expected {
+        let missing: Vec<_> = expected.keys().filter(|k| !actual.contains_key(k)).collect();
+        let stale: Vec<_> = actual.keys().filter(|k| !expected.contains_key(k)).collect();
+        let differ: Vec<_> = expected
+            .iter()
+            .filter(|(k, v)| actual.get(k).map(|a| a != *v).unwrap_or(false))
+            .map(|(k, v)| format!("{:?}: index={:?} folder={v}", k.1, actual.get(k)))
+            .collect();
+        problems.push(format!(
+            "{label}: search index differs from the folders: missing={missing:?} stale={stale:?} outdated={differ:?}"
+        ));
+    }
+    // counters = recount of the documents
+    let count = index.statistics().count();
+    let mut vaults: Map<VaultId, usize> = Map::new();
+    let mut kinds: Map<u8, usize> = Map::new();
+    let mut tags: Map<String, usize> = Map::new();
+    let mut favorites = 0usize;
+    for doc in index.values() {
+        *vaults.entry(*doc.folder_id()).or_default() += 1;
+        if Some(*doc.folder_id()) != archive {
+            let k: u8 = doc.meta().kind().into();
+            *kinds.entry(k).or_default() += 1;
+        }
+        for t in doc.meta().tags() {
+            *tags.entry(t.clone()).or_default() += 1;
+        }
+        if doc.meta().favorite() {
+            favorites += 1;
+        }
+    }
+    let nz = |m: Map<VaultId, usize>| m.into_iter().filter(|(_, v)| *v > 0).collect::<Map<_, _>>();
+    let real_vaults: Map<VaultId, usize> = nz(count.vaults().iter().map(|(k, v)| (*k, *v)).collect());
+    let real_kinds: Map<u8, usize> =
+        count.kinds().iter().filter(|(_, v)| **v > 0).map(|(k, v)| (*k, *v)).collect();
+    let real_tags: Map<String, usize> =
+        count.tags().iter().filter(|(_, v)| **v > 0).map(|(k, v)| (k.clone(), *v)).collect();
+    if real_vaults != vaults {
+        problems.push(format!("{label}: per-folder counters {real_vaults:?} differ from a recount {vaults:?}"));
+    }
+    if real_kinds != kinds {
+        problems.push(format!("{label}: per-kind counters {real_kinds:?} differ from a recount {kinds:?}"));
+    }
+    if real_tags != tags {
+        problems.push(format!("{label}: per-tag counters {real_tags:?} differ from a recount {tags:?}"));
+    }
+    if count.favorites() != favorites {
+        problems.push(format!("{label}: favourites counter {} differs from a recount {favorites}", count.favorites()));
+    }
+    // identical to an index built from scratch
+    let mut fresh = SearchIndex::new();
+    fresh.set_archive_id(archive);
+    for f in &folders {
+        let folder = account.folder(f.id()).await?;
+        let ap = folder.access_point();
+        let ap = ap.lock().await;
+        fresh.add_folder(&*ap).await?;
+    }
+    let rebuilt: Map<(VaultId, SecretId), String> = fresh
+        .values()
+        .iter()
+        .map(|d| ((*d.folder_id(), *d.id()), doc_digest(d.meta())))
+        .collect();
+    if rebuilt != actual {
+        problems.push(format!(
+            "{label}: search index differs from an index rebuilt from scratch ({} vs {} documents)",
+            actual.len(), rebuilt.len()
+        ));
+    }
+    let fc = fresh.statistics().count();
+    if fc.favorites() != count.favorites()
+        || nz(fc.vaults().iter().map(|(k, v)| (*k, *v)).collect()) != real_vaults
+    {
+        problems.push(format!("{label}: counters differ from those of a rebuilt index"));
+    }
+    // queries never return deleted entries and find every live one
+    for ((folder_id, secret_id), _) in expected.iter() {
+        if index.find_by_id(folder_id, secret_id).is_none() {
+            problems.push(format!("{label}: live secret {secret_id} is not found in the index"));
+        }
+    }
+    Ok(())
+}
+
+fn doc_digest(meta: &sos_vault::secret::SecretMeta) -> String {
+    let mut tags: Vec<&String> = meta.tags().iter().collect();
+    tags.sort();
+    format!("{}|{:?}|{:?}|{}", meta.label(), meta.kind(), tags, meta.favorite())
+}
+
+/// C16 (soundness half): the integrity report of an untampered account
+/// contains no failure.
+pub async fn c16_failures(account: &LocalAccount) -> Result<Vec<String>> {
+    use sos_integrity::{account_integrity, FolderIntegrityEvent};
+    let target = account.backend_target().await;
+    let folders = account.list_folders().await?;
+    let (mut rx, _cancel) =
+        account_integrity(&target, account.account_id(), folders, 1).await?;
+    let mut failures = Vec::new();
+    while let Some(ev) = rx.recv().await {
+        match ev {
+            FolderIntegrityEvent::Failure(id, f) => {
+                failures.push(format!("folder {id}: {f:?}"));
+            }
+            FolderIntegrityEvent::Complete => break,
+            _ => {}
+        }
+    }
+    Ok(failures)
+}
+
+fn find_sub(hay: &[u8], needle: &[u8]) -> Option<usize> {
+    if needle.is_empty() || needle.len() > hay.len() {
+        return None;
+    }
+    hay.windows(needle.len()).position(|w| w == needle)
+}
+
+/// C16 (completeness half): every single-byte change inside the encrypted
+/// content / stored checksum of a secret row or inside the payload / hash
+/// of an event record, and the removal of a folder's vault or log, must
+/// show up as a failure of the integrity report.
+pub async fn c16_corruptions(
+    dev: &mut Device,
+    every_byte: bool,
+    out: &mut Summary,
+    violations: &mut Vec<String>,
+) -> Result<()> {
+    use sos_core::{encode, VaultCommit};
+    let target = dev.account.backend_target().await;
+    let paths = target.paths();
+    for (f, id) in dev.folders.clone() {
+        // regions: (what, bytes to locate)
+        let folder = dev.account.folder(&id).await?;
+        let mut needles: Vec<(String, Vec<u8>)> = Vec::new();
+        {
+            let ap = folder.access_point();
+            let ap = ap.lock().await;
+            for (sid, VaultCommit(commit, entry)) in ap.vault().iter() {
+                needles.push((format!("vault row {sid} content"), encode(entry).await?));
+                needles.push((format!("vault row {sid} checksum"), commit.as_ref().to_vec()));
+            }
+        }
+        let mut ev_needles: Vec<(String, Vec<u8>)> = Vec::new();
+        {
+            let log = folder.event_log();
+            let log = log.read().await;
+            let s = log.record_stream(false).await;
+            pin_mut!(s);
+            let mut n = 0;
+            while let Some(r) = s.next().await {
+                let r = r?;
+                ev_needles.push((format!("event {n} payload"), r.event_bytes().to_vec()));
+                ev_needles.push((format!("event {n} hash"), r.commit().as_ref().to_vec()));
+                n += 1;
+            }
+        }
+        if dev.label == "fs" {
+            let vault_path = paths.vault_path(&id);
+            let log_path = paths.event_log_path(&id);
+            for (path, list) in [(vault_path.clone(), &needles), (log_path.clone(), &ev_needles)] {
+                let original = std::fs::read(&path)?;
+                for (what, needle) in list.iter() {
+                    let Some(start) = find_sub(&original, needle) else {
+                        violations.push(format!("fs: folder {f}: could not locate {what} in {}", path.display()));
+                        continue;
+                    };
+                    let positions: Vec<usize> = if every_byte {
+                        (0..needle.len()).collect()
+                    } else {
+                        vec![0, needle.len() / 2, needle.len() - 1]
+                    };
+                    for p in positions {
+                        let mut bytes = original.clone();
+                        bytes[start + p] ^= 0x01;
+                        std::fs::write(&path, &bytes)?;
+                        let failures = c16_failures(&dev.account).await?;
+                        out.count("corruptions_tried", 1);
+                        if !failures.iter().any(|x| x.contains(&id.to_string())) {
+                            violations.push(format!(
+                                "fs: folder {f}: flipping a bit of byte {p} of {what} is not reported by the integrity check"
+                            ));
+                        }
+                    }
+                }
+                std::fs::write(&path, &original)?;
+            }
+            // removal of the vault / the log
+            for path in [vault_path, log_path] {
+                let moved = path.with_extension("removed");
+                std::fs::rename(&path, &moved)?;
+                let failures = c16_failures(&dev.account).await?;
+                out.count("removals_tried", 1);
+                if !failures.iter().any(|x| x.contains(&id.to_string())) {
+                    violations.push(format!(
+                        "fs: folder {f}: removing {} is not reported by the integrity check",
+                        path.file_name().unwrap().to_string_lossy()
+                    ));
+                }
+                std::fs::rename(&moved, &path)?;
+            }
+        } else if let BackendTarget::Database(_, client) = &target {
+            // sqlite: mutate the blob columns of the rows of this folder
+            let folder_uuid = id.to_string();
+            for (table, cols) in [
+                ("folder_secrets", vec!["meta", "secret", "commit_hash"]),
+                ("folder_events", vec!["event", "commit_hash"]),
+            ] {
+                for col in cols {
+                    let fu = folder_uuid.clone();
+                    let (key, t, c) = (
+                        if table == "folder_secrets" { "secret_id" } else { "event_id" },
+                        table,
+                        col,
+                    );
+                    let rows: Vec<(i64, Vec<u8>)> = client
+                        .conn(move |conn| {
+                            let mut stmt = conn.prepare(&format!(
+                                "SELECT {key}, {c} FROM {t} WHERE folder_id = (SELECT folder_id FROM folders WHERE identifier = ?1)"
+                            ))?;
+                            let rows = stmt
+                                .query_map([fu], |row| Ok((row.get(0)?, row.get(1)?)))?
+                                .collect::<std::result::Result<Vec<_>, _>>()?;
+                            Ok(rows)
+                        })
+                        .await?;
+                    for (row_id, blob) in rows {
+                        if blob.is_empty() {
+                            continue;
+                        }
+                        let positions: Vec<usize> = if every_byte {
+                            (0..blob.len()).collect()
+                        } else {
+                            vec![0, blob.len() / 2, blob.len() - 1]
+                        };
+                        for p in positions {
+                            let mut bytes = blob.clone();
+                            bytes[p] ^= 0x01;
+                            let sql = format!("UPDATE {t} SET {c} = ?1 WHERE {key} = ?2");
+                            let sql2 = sql.clone();
+                            client
+                                .conn(move |conn| {
+                                    conn.execute(&sql, (bytes, row_id))?;
+                                    Ok(())
+                                })
+                                .await?;
+                            let failures = c16_failures(&dev.account).await?;
+                            out.count("corruptions_tried", 1);
+                            if !failures.iter().any(|x| x.contains(&id.to_string())) {
+                                violations.push(format!(
+                                    "db: folder {f}: flipping a bit of byte {p} of {t}.{c} (row {row_id}) is not reported by the integrity check"
+                                ));
+                            }
+                            let orig = blob.clone();
+                            client
+                                .conn(move |conn| {
+                                    conn.execute(&sql2, (orig, row_id))?;
+                                    Ok(())
+                                })
+                                .await?;
+                        }
+                    }
+                }
+            }
+        }
+    }
+    Ok(())
+}
+
 /// Derived keys by (salt, seed, password): the KDF is paid once per key.
 static KEY_CACHE: std::sync::Mutex<Vec<(String, Vec<u8>)>> =
     std::sync::Mutex::new(Vec::new());
@@ -785,6 +1085,32 @@ pub async fn run_path(
                         failed = true;
                     }
                     c02
+                }
+                "C20" => {
+                    let mut v = Vec::new();
+                    c20_check(&dev.account, dev.label, &mut v).await?;
+                    if !problems.is_empty() && v.is_empty() {
+                        out.count("aborted_paths_state_divergence", 1);
+                        failed = true;
+                    }
+                    v
+                }
+                "C16" => {
+                    let mut v = Vec::new();
+                    if n + 1 == steps.len() || n % 7 == 6 || act == "SignOutIn" {
+                        for f in c16_failures(&dev.account).await? {
+                            v.push(format!("{}: integrity report of an untampered account: {f}", dev.label));
+                        }
+                        out.count("integrity_reports", 1);
+                    }
+                    if n + 1 == steps.len() && v.is_empty() && path["corrupt"] != "none" {
+                        c16_corruptions(dev, path["corrupt"] == "every", out, &mut v).await?;
+                    }
+                    if !problems.is_empty() && v.is_empty() {
+                        out.count("aborted_paths_state_divergence", 1);
+                        failed = true;
+                    }
+                    v
                 }
                 "C12" => {
                     let mut v = Vec::new();
